@@ -43,7 +43,7 @@ func (r *run) newRealTransport() *realNet {
 		cl.AddTopic(t, np)
 	}
 	cl.Intercept = r.interceptProduce
-	tr := &kafka.Transport{Dial: n.Dialer("writer"), ClientID: "wdriver", DialTimeout: 2 * time.Second, IdleTimeout: 5 * time.Second,
+	tr := &kafka.Transport{Dial: n.Dialer("writer"), ClientID: "wdriver", DialTimeout: 5 * time.Second, IdleTimeout: 5 * time.Second,
 		MetadataTTL: 10 * time.Second}
 	return &realNet{net: n, cl: cl, tr: tr}
 }
